@@ -89,7 +89,16 @@ fn compare(w: &World, i: usize, request: &'static str, got: nav::HandlerResult<O
                             _ => "elsewhere",
                         },
                     };
-                    r.fail(format!("name-denotes-global-and-local|{}|{}|want:{}|got:{}", request, role_class(w, i), kind(&want_bytes), kind(&got_bytes)), what, detail());
+                    let sig = format!("name-denotes-global-and-local|{}|{}|want:{}|got:{}", request, role_class(w, i), kind(&want_bytes), kind(&got_bytes));
+                    // a recorded finding only if the answer is exactly the recorded baseline's
+                    let method = match request {
+                        "declaration" => "textDocument/declaration",
+                        "definition" => "textDocument/definition",
+                        "implementation" => "textDocument/implementation",
+                        _ => "textDocument/typeDefinition",
+                    };
+                    let agrees = crate::pinned_lsp::baseline_agrees_on(method, &w.uri, w.text(), crate::pinned_lsp::position_params(method, &w.uri, cursor.line, cursor.character), &serde_json::to_value(&loc).unwrap_or(Value::Null), crate::pinned_lsp::ranges_of);
+                    r.fail(crate::pinned_lsp::triage(sig, agrees), what, detail());
                 } else {
                     r.fail(format!("wrong-{}|{}", request, role_class(w, i)), what, detail());
                 }
